@@ -1,0 +1,21 @@
+//go:build verif
+
+package store
+
+import "sort"
+
+// VerifPendingProposals returns the request ids of the proposals still waiting
+// for their entry to be applied (verification harness only).
+func (s *Store) VerifPendingProposals() []uint64 {
+	if s == nil || s.command == nil {
+		return nil
+	}
+	s.command.mu.Lock()
+	ids := make([]uint64, 0, len(s.command.proposals))
+	for id := range s.command.proposals {
+		ids = append(ids, id)
+	}
+	s.command.mu.Unlock()
+	sort.Slice(ids, func(i, j int) bool { return ids[i] < ids[j] })
+	return ids
+}
